@@ -1251,6 +1251,14 @@ def ac_cases(ctx, r, lines, checks):
                     ctx.fail('property', site, 'ground state', f'{call}: all +1 has energy {e[allp]}, the minimum is {mn} (e.g. at spins {[(w >> i & 1) * 2 - 1 for i in range(len(order))]}), attained {int((e == mn).sum())} times',
                              repro=src + 'ss = dimod.ExactSolver().sample(b); lowest = ss.lowest()\nassert len(lowest) == 1 and all(v == 1 for v in lowest.first.sample.values()), lowest\n')
                     bad = True
+                elif name.endswith('loops'):
+                    # "a degenerate first excited state, centered at all -1s"
+                    lv = np.unique(e)
+                    first = e == lv[1]
+                    if not first[0] or int(first.sum()) < 2:
+                        bad = True
+                        ctx.fail('property', site, 'first excited state', f'{call}: the first excited level {lv[1]} has {int(first.sum())} states, all -1 has energy {e[0]}; documented: degenerate, centred at all -1',
+                                 repro=src + 'ss = dimod.ExactSolver().sample(b); es = sorted(set(ss.record.energy))\nassert b.energy({v: -1 for v in b.variables}) == es[1] and (ss.record.energy == es[1]).sum() > 1\n')
                 ctx.tick(f'ac:{name}:ground-state-enumerated')
             lines.append(f"{'acclique' if name.endswith('clique') else 'acloops'} {n}")
             checks.append((site + ' vs Gen.acClique/acLoops', 'coefficients', 'ok ' + canon_bqm(b), src + 'print(b)\n', bad))
